@@ -1,5 +1,6 @@
 import PicoVerif.Model.Writers
 import PicoVerif.Spec.LuaLex
+import PicoVerif.Lemmas.C06
 /-! C06 — the default writer echoes the source losslessly. -/
 namespace Pico.C06
 open Pico.Lex Pico.Wr
@@ -22,29 +23,29 @@ character, and outside quoted strings the echo writer's text for the token *is* 
 theorem cover (src : Bytes) (toks : List Tok) (h : lex [src] = .ok toks) :
     ∃ raws : List Bytes, raws.length = toks.length ∧ raws.flatten = src ∧
       ∀ i (hi : i < toks.length), RawOf toks[i] (raws.getD i []) ∧
-        (toks[i].line, toks[i].col) = Spec.Lex.posAfter 0 0 (raws.take i).flatten := by
-  sorry
+        (toks[i].line, toks[i].col) = Spec.Lex.posAfter 0 0 (raws.take i).flatten :=
+  C06L.cover' src toks h
 
 /-- **C06.reescape**: the spelling the echo writer produces for a quoted string denotes exactly the
 token's bytes under the reference string grammar, and ends at its closing quote whatever follows. -/
 theorem reescape (q : UInt8) (hq : q = 34 ∨ q = 39) (v next : Bytes) (fuel : Nat)
     (hf : (escapeBody q v).length + 1 ≤ fuel) :
     Spec.Lex.quoted q fuel (escapeBody q v ++ q :: next) [] 0 = some (v, (escapeBody q v).length + 1) := by
-  sorry
+  simpa using C06L.reescape_gen q hq next v [] 0 fuel hf
 
 /-- **C06.decode_agrees**: on every string body of the dialect the lexer's string loop computes the
 reference grammar's value (same bytes, same extent). -/
 theorem decode_agrees (q : UInt8) (s v : Bytes) (n fuel fuel' : Nat)
     (h : Spec.Lex.quoted q fuel s [] 0 = some (v, n)) (hf : s.length + 1 ≤ fuel') :
-    strLoop q fuel' s [] 0 = .ok (true, v, n) := by
-  sorry
+    strLoop q fuel' s [] 0 = .ok (true, v, n) :=
+  C06L.decode_agrees_gen q v n fuel s [] 0 fuel' h hf
 
 /-- **C06.echo_stable**: echoing is idempotent on tokens — the echoed spelling of a quoted string, read
 again by the lexer's string loop, yields the same data (so write/read cycles do not drift). -/
 theorem echo_stable (q : UInt8) (hq : q = 34 ∨ q = 39) (v next : Bytes) :
     strLoop q ((escapeBody q v).length + next.length + 2) (escapeBody q v ++ q :: next) [] 0
-      = .ok (true, v, (escapeBody q v).length + 1) := by
-  sorry
+      = .ok (true, v, (escapeBody q v).length + 1) :=
+  decode_agrees q _ v _ _ _ (reescape q hq v next _ (Nat.le_refl _)) (by simp; omega)
 
 /-- non-vacuity / regression anchors: the two historical defects -/
 example : escapeBody 34 [0, 49] = "\\0001".toUTF8.toList := by decide +kernel
